@@ -85,4 +85,26 @@ def whereGraph (c x y : TG) (code : Nat) : TG :=
   else if code = 4 ∨ code = 12 ∨ code = 13 then .cast code (.sel c (.cast 7 x) (.cast 7 y))
   else .sel c x y
 
+/-- `tril(x, k)` / `triu(x, k)` on an integer array of ONNX element type `t`: through int64. -/
+def triluGraph (x : TG) (t : Nat) (upper : Bool) (k : Int) : TG :=
+  viaI64 t (fun y => .trilu upper y (iscalar k)) x
+
+/-- `a + b` as ndonnx emits it for integer operands of type `t` (through int64 unless `t` is int64). -/
+def addG (t : Nat) (x y : TG) : TG :=
+  if t = 7 then .bin .add x y else .cast t (.bin .add (.cast 7 x) (.cast 7 y))
+
+/-- The operand `broadcast_arrays` adds up to read the common shape off: the array itself when numeric, `zeros_like(x,
+int64)` (`Expand(0, Shape(x))`) for a boolean array. -/
+def numericLike (t : Nat) (x : TG) : TG := if t = 9 then .expand (iscalar 0) (.shape x) else x
+
+/-- The term whose run-time shape is the common shape: the left-to-right sum of the operands. -/
+def carrierG (t : Nat) (xs : List TG) : TG :=
+  match xs.map (numericLike t) with
+  | [] => iscalar 0
+  | c :: cs => cs.foldl (addG (if t = 9 then 7 else t)) c
+
+/-- Result `i` of `broadcast_arrays(*xs)`: `broadcast_to(xs[i], shape(sum))`. -/
+def broadcastArraysGraph (xs : List TG) (t i : Nat) : TG :=
+  .expand (xs.getD i (iscalar 0)) (.shape (carrierG t xs))
+
 end Ndx.TGraph
